@@ -1,6 +1,7 @@
 import Verif.Util.Proto
 import Verif.Model.Lang.SExpr
 import Verif.Model.Lang.Eval
+import Verif.Model.Lang.VM.Compile
 /-!
 Driver for the streams `evalorder` (C52) and `vmeq` (C34).
 
@@ -17,7 +18,7 @@ Direct oracles (independent of the model, judged first):
 Then the model: the S-expression of the checked program is read and run; its observation must equal
 the interpreter's.
 -/
-open Verif.Proto Verif.Model.Lang
+open Verif.Proto Verif.Model.Lang Verif.Model.Lang.VM
 
 def splitOn2 (s sep : String) : List String := s.splitOn sep
 
@@ -55,6 +56,37 @@ def parseObs (o : String) : String × List String :=
   | [out] => (out, [])
   | [] => ("", [])
 
+/-! Shape of the known finding `conditional-result-not-boxed`: a conditional expression is the left
+operand of `??` or the target of optional chaining (`?.`).  The interpreter does not box the value of a
+conditional expression into its optional type; `??` then treats a non-nil left value as nil and `?.`
+fails with an internal MemberAccessTypeError, while the VM handles both. -/
+mutual
+partial def exprHasUnboxedCond : Expr → Bool
+  | .coalesce _ (.cond ..) _ => true
+  | .member true (.cond ..) _ => true
+  | .mcall true (.cond ..) _ _ => true
+  | .unary _ e => exprHasUnboxedCond e
+  | .binary _ a b | .and a b | .or a b | .coalesce _ a b | .index a b => exprHasUnboxedCond a || exprHasUnboxedCond b
+  | .cond c t e => exprHasUnboxedCond c || exprHasUnboxedCond t || exprHasUnboxedCond e
+  | .call _ as | .array _ as => as.any exprHasUnboxedCond
+  | .dict _ _ es => es.any fun kv => exprHasUnboxedCond kv.1 || exprHasUnboxedCond kv.2
+  | .member _ e _ | .force e => exprHasUnboxedCond e
+  | .mcall _ r _ as => exprHasUnboxedCond r || as.any exprHasUnboxedCond
+  | _ => false
+partial def stmtHasUnboxedCond : Stmt → Bool
+  | .decl _ _ _ e | .expr e | .ret (some e) => exprHasUnboxedCond e
+  | .assign t _ e => exprHasUnboxedCond t || exprHasUnboxedCond e
+  | .swap l _ r _ => exprHasUnboxedCond l || exprHasUnboxedCond r
+  | .ite c t e => exprHasUnboxedCond c || t.any stmtHasUnboxedCond || (e.getD []).any stmtHasUnboxedCond
+  | .while c b => exprHasUnboxedCond c || b.any stmtHasUnboxedCond
+  | _ => false
+end
+
+def programHasUnboxedCond (p : Program) : Bool :=
+  p.funs.any (·.body.any stmtHasUnboxedCond) ||
+  p.structs.any fun sd => sd.methods.any (·.body.any stmtHasUnboxedCond) ||
+    (match sd.init with | some (_, b) => b.any stmtHasUnboxedCond | none => false)
+
 def judge (op : List String) (go : String) : Verdict :=
   match go.splitOn " @@ " with
   | [sx, oi, ov, oo] =>
@@ -65,8 +97,10 @@ def judge (op : List String) (go : String) : Verdict :=
     let ids := (logIds logsI).filter (· ≤ maxId)
     let tags0 := forms.filter (· ≠ "")
     -- direct oracles
-    if oi ≠ ov then .violation "engines-differ" ("vm=" ++ oi) tags0
-    else if ov ≠ oo then .violation "peephole-differs" ("vmopt=" ++ ov) tags0
+    if oi ≠ ov && ov == oo && ((readProgram sx).map programHasUnboxedCond).getD false then
+      .violation "conditional-result-not-boxed" ("vm observation = interpreter observation = " ++ oi) tags0
+    else if oi ≠ ov then .violation "engines-differ" ("vm observation = interpreter observation = " ++ oi) tags0
+    else if ov ≠ oo then .violation "peephole-differs" ("vm+peephole observation = vm observation = " ++ ov) tags0
     else if hasDup ids then .violation "evaluated-twice" "each id at most once" tags0
     else if !strictlyIncreasing ids then .violation "order" "ids in increasing order" tags0
     else if outI.startsWith "ok:" && !(once.all fun k => ids.contains k) then
@@ -81,8 +115,17 @@ def judge (op : List String) (go : String) : Verdict :=
         let r := run p 4000
         let (m, tag) := renderRes r
         if tag == "model-internal" || tag == "model-out-of-fuel" then .skip (tag ++ ":" ++ (m.takeWhile (· ≠ '|')).toString)
-        else if m == oi then .ok (("!nt" :: tag :: tags0))
-        else .modelDiff m (tag :: tags0)
+        else if m != oi then .modelDiff m (tag :: tags0)
+        else
+          -- layer L0 programs are also compiled by the model compiler and run on the model VM, which
+          -- must reproduce the real VM's observation
+          match compile p with
+          | none => .ok ("!nt" :: tag :: tags0)
+          | some tbl =>
+            let (mv, vtag) := renderRes (runVM tbl 200000)
+            if vtag == "model-internal" || vtag == "model-out-of-fuel" then .modelDiff ("vm-model:" ++ mv) (tag :: tags0)
+            else if mv == ov then .ok ("!nt" :: "vm-model" :: tag :: tags0)
+            else .modelDiff ("vm-model:" ++ mv) ("vm-model" :: tag :: tags0)
   | _ => .skip "bad-go-result"
 
 def main : IO Unit := runDriver judge
